@@ -186,6 +186,15 @@ fn gen_taxa(rng: &mut Rng, n: usize) -> Vec<String> {
             *x = format!("sp|{}:{}(x)", i, x);
         }
     }
+    // labels that READ as numbers (sample ids, accession numbers): a row label is never a header, a size or a distance
+    if rng.chance(1, 5) {
+        let numeric = ["101", "7", "0", "3", "42", "1e3", "-2", "+5", "0.5", "inf", "nan", "007", "18446744073709551616", "2", "1"];
+        for (i, x) in v.iter_mut().enumerate() {
+            if i < 2 || rng.chance(1, 2) {
+                *x = if rng.chance(1, 3) { format!("{}", 100 + i) } else { numeric[(i * 7 + rng.below(numeric.len())) % numeric.len()].to_string() };
+            }
+        }
+    }
     // control characters that are NOT white space (NUL, SOH, ESC, DEL, C1 controls other than NEL) are ordinary characters of a
     // label: "names contain no whitespace" covers them
     if rng.chance(1, 6) {
@@ -237,6 +246,30 @@ fn roundtrip(rng: &mut Rng, q: &mut Q, rep: &mut Report) {
             rep.oracle("no-panic", "to_phylip", &case, "panic");
             continue;
         };
+        // the same round trip through a FILE (fresh, or existing with longer content), for one matrix in five
+        if !f32mode && rng.chance(1, 5) {
+            let fresh = rng.chance(1, 2);
+            let path = std::env::temp_dir().join(format!("pvh-c14r-{}-{}.phy", std::process::id(), rng.next() % 1_000_000_000));
+            if !fresh {
+                let _ = std::fs::write(&path, "9\nSTALE CONTENT OF AN EARLIER, LONGER FILE\n".repeat(60));
+            }
+            let mm = DistanceMatrix::new(taxa.clone(), &cells64);
+            let p2 = path.clone();
+            let got = match guarded(AssertUnwindSafe(|| mm.to_file(&p2, square).map_err(|e| format!("{e:?}")).and_then(|_| DistanceMatrix::<f64>::from_file(&p2, square).map_err(|e| format!("{e:?}"))))) {
+                Err(_) => "panic".to_string(),
+                Ok(Err(e)) => format!("err {e}"),
+                Ok(Ok(r)) => format!("ok {} | {}", enc_taxa(&r.taxa), r.iter().map(|v| canon_f64(*v)).collect::<Vec<_>>().join(" ")),
+            };
+            let on_disk = std::fs::read_to_string(&path).unwrap_or_default();
+            let _ = std::fs::remove_file(&path);
+            rep.count("roundtrip:through-a-file");
+            if got != bits {
+                rep.oracle("roundtrip", "file", &format!("{case} to_file ({}) -> from_file", if fresh { "fresh path" } else { "existing longer file" }), &format!("{got} expected {bits}"));
+            }
+            if on_disk != text {
+                rep.oracle("roundtrip", "file-content-differs-from-to_phylip", &format!("{case} to_file"), &format!("{on_disk:?} vs {text:?}"));
+            }
+        }
         // writer tie
         q.reqs.push(format!("ph.write\t{}\t{}\t{}", square as u8, enc_taxa(&taxa), if lexemes.is_empty() { "_".to_string() } else { lexemes.iter().map(|l| format!("h{}", hex(l))).collect::<Vec<_>>().join(" ") }));
         q.expect.push(format!("ok {}", hex(&text)));
@@ -352,6 +385,38 @@ fn one_asymmetric_pair(rng: &mut Rng, q: &mut Q, rep: &mut Report) {
     rep.count(if i < j { "asymmetric:upper-entry-changed" } else { "asymmetric:lower-entry-changed" });
     rep.count(if old == 0.0 { "asymmetric:from-zero" } else if new.parse::<f64>().unwrap() == 0.0 { "asymmetric:to-zero" } else { "asymmetric:between-nonzero" });
     parse_all(&asym, q, rep, true);
+}
+
+/// A symmetric square text in which ONE diagonal entry is replaced: the strict parser accepts it exactly when the entry
+/// still equals zero (`0`, `-0`, `0.0`, `+0e5`), and rejects a negative, tiny, infinite or NaN diagonal.
+fn one_diagonal_cell(rng: &mut Rng, q: &mut Q, rep: &mut Report) {
+    let n = rng.range(1, 5);
+    let mut tab = vec![vec!["0".to_string(); n]; n];
+    for i in 0..n {
+        for j in 0..i {
+            let v = format!("{}", rng.range(0, 9) as f64 / 4.0);
+            tab[i][j] = v.clone();
+            tab[j][i] = v;
+        }
+    }
+    let i = rng.below(n);
+    let zero = rng.chance(1, 4);
+    let v = if zero { *rng.pick(&["-0", "0.0", "+0e5", "-0.0e-3", "0"]) } else { *rng.pick(&["-0.5", "-inf", "1e-300", "-1e-300", "nan", "inf", "-1", "5e-324", "-5e-324", "1", "-nan", "-7e300"]) };
+    tab[i][i] = v.to_string();
+    let mut s = format!("{n}\n");
+    for (k, r) in tab.iter().enumerate() {
+        s.push_str(&format!("d{k}  {}\n", r.join("  ")));
+    }
+    rep.case(&format!("text {}", hex(&s)), true);
+    rep.count(if zero { "diagonal:another-spelling-of-zero" } else { "diagonal:not-zero" });
+    parse_all(&s, q, rep, true);
+    let a = real_parse64("strict-square", &s);
+    if zero && !a.starts_with("ok") {
+        rep.oracle("strict", "zero-diagonal-refused", &format!("ph.parse\tstrict-square\t{}", hex(&s)), &a);
+    }
+    if !zero && a.starts_with("ok") {
+        rep.oracle("strict", "non-zero-diagonal", &format!("ph.parse\tstrict-square\t{}", hex(&s)), "accepted");
+    }
 }
 
 pub fn run(thorough: bool, seed: u64, driver: &str, rep: &mut Report) {
@@ -502,6 +567,9 @@ pub fn run(thorough: bool, seed: u64, driver: &str, rep: &mut Report) {
                         mutated(&mut rng, &mut q, rep);
                         if k % 4 == 0 {
                             one_asymmetric_pair(&mut rng, &mut q, rep);
+                        }
+                        if k % 4 == 2 {
+                            one_diagonal_cell(&mut rng, &mut q, rep);
                         }
                     }
                 }
